@@ -202,7 +202,23 @@ class StopRequests(Observer, _FalseFailureWatch):
     def on_publication(self, sim, inst, ptype, body):
         from supvisors.ttypes import PublicationHeaders
         if ptype == PublicationHeaders.PROCESS and body.get('forced') and body.get('state') == 0:
-            self.forced_stopped[(inst.nick, inst.incarnation, '%s:%s' % (body['group'], body['name']))] = sim.now_us
+            ns_f = '%s:%s' % (body['group'], body['name'])
+            self.forced_stopped[(inst.nick, inst.incarnation, ns_f)] = sim.now_us
+            # "unless its stop was given up on timeout": a process that is STOPPING is given stopwaitsecs by its Supervisor;
+            # a give-up earlier than that after the request is not a time-out
+            if 'STOPPED event not received in time' in str(body.get('spawnerr')):
+                from supvsim.puppet import program_of
+                prog, _i = program_of(sim.config, ns_f)
+                mine = [r for r in self.requests if r['s'] == inst.nick and r['inc'] == inst.incarnation
+                        and r['ns'] == ns_f and r['target'] == body.get('identifier')]
+                if prog is not None and mine:
+                    elapsed = sim.now_us - mine[-1]['t_us']
+                    self._probe('give_up_checked')
+                    if elapsed < (prog.get('stopwaitsecs', 10) - 1.0) * US:
+                        self.violate('premature-give-up', {'requester': inst.nick, 'process': ns_f,
+                                                           'target': body.get('identifier'), 'elapsed_s': elapsed / US,
+                                                           'stopwaitsecs': prog.get('stopwaitsecs', 10)},
+                                     'stop-given-up-before-stopwaitsecs')
         elif ptype == PublicationHeaders.STATE and body['fsm_statename'] in ('RESTARTING', 'SHUTTING_DOWN') \
                 and body['master_identifier'] == inst.identifier:
             # what the Master sees running when the ending plan is built
